@@ -24,7 +24,8 @@ var preludeFuns = map[string]struct {
 	"be16": {2, "Int"}, "be32": {2, "Int"}, "be64": {2, "Int"}, "zigzag": {1, "Int"}, "sz_uvarint": {1, "Int"},
 	"sz_varint": {1, "Int"}, "wrap8": {1, "Int"}, "wrap16": {1, "Int"}, "wrap32": {1, "Int"}, "wrap64": {1, "Int"},
 	"uwrap8": {1, "Int"}, "uwrap16": {1, "Int"}, "uwrap32": {1, "Int"}, "uwrap64": {1, "Int"},
-	"tdiv": {2, "Int"}, "trem": {2, "Int"},
+	"tdiv": {2, "Int"}, "trem": {2, "Int"}, "uv_n": {3, "Int"}, "uv_value": {3, "Int"}, "uv_val": {2, "Int"},
+	"uv_len": {2, "Int"}, "unzigzag": {1, "Int"},
 }
 
 // call lowers a call expression and returns its results.
@@ -208,6 +209,31 @@ func (l *Lowerer) call(ce *ast.CallExpr) ([]*Term, []types.Type) {
 	return l.callFunc(callee, recv, recvTyp, ce)
 }
 
+// concreteTypeOf: replay search treats packetDecoder parameters as *realDecoder.
+func (l *Lowerer) concreteTypeOf(e ast.Expr) types.Type {
+	if !l.p.opts.concretePD || l.spec {
+		return nil
+	}
+	id, ok := ast.Unparen(e).(*ast.Ident)
+	if !ok {
+		return nil
+	}
+	v, ok := l.info().ObjectOf(id).(*types.Var)
+	if !ok || v.IsField() {
+		return nil
+	}
+	if namedOf(v.Type()) != "packetDecoder" {
+		return nil
+	}
+	if l.fr.parent != nil {
+		return nil
+	}
+	if tn, ok := l.fr.fi.Pkg.Types.Scope().Lookup("realDecoder").(*types.TypeName); ok {
+		return types.NewPointer(tn.Type())
+	}
+	return nil
+}
+
 func (l *Lowerer) specTypeOrNil(e ast.Expr) (t types.Type) {
 	defer func() {
 		if r := recover(); r != nil {
@@ -247,6 +273,9 @@ func (l *Lowerer) methodRecv(f *ast.SelectorExpr) (*Term, types.Type, *types.Fun
 	}
 	// evaluate base lazily: prefer place for value structs
 	baseTyp = l.typeOfExpr(f.X)
+	if ct := l.concreteTypeOf(f.X); ct != nil {
+		baseTyp = ct
+	}
 	obj, index, _ := types.LookupFieldOrMethod(baseTyp, true, l.fr.fi.Pkg.Types, f.Sel.Name)
 	m, ok := obj.(*types.Func)
 	if !ok {
@@ -768,6 +797,9 @@ func (l *Lowerer) evalArgs(ce *ast.CallExpr, sig *types.Signature) ([]*Term, []t
 	}
 	for i, a := range ce.Args {
 		t, ty := l.tr(a)
+		if ct := l.concreteTypeOf(a); ct != nil {
+			ty = ct
+		}
 		if sig != nil {
 			var pt types.Type
 			if sig.Variadic() && i >= np-1 {
@@ -846,6 +878,17 @@ func (l *Lowerer) callFunc1(callee *types.Func, recv *Term, recvTyp types.Type, 
 	if ct := l.p.contractFor(fi); ct != nil {
 		if ct.Pure && fi.Body != nil && !ct.Trusted && ct.PureDef == nil && len(ct.Ensures) == 0 {
 			return l.inline(fi, recv, recvTyp, args, atys, ce, false)
+		}
+		if ct.Pure && fi.Iface != nil && len(ct.Ensures) == 0 {
+			// abstract pure method of an interface: its value is the abstract state
+			saved := l.spec
+			l.spec = true
+			res := l.pureCall(fi, recv, recvTyp, args, atys, ce)
+			l.spec = saved
+			for i, r := range res {
+				l.wf(r, resTypes[i])
+			}
+			return res, resTypes
 		}
 		return l.callContract(ct, fi, recv, recvTyp, args, atys, ce), resTypes
 	}
@@ -1569,26 +1612,32 @@ func (l *Lowerer) externalCall(callee *types.Func, recv *Term, recvTyp types.Typ
 		l.store(lv.pl, r.sMk(w.Sort, arr, r.sOff(w), r.sLen(w), r.sCap(w), r.sNil(w)))
 		return nil
 	case "encoding/binary.Varint", "encoding/binary.Uvarint":
-		// trusted contract (T-stdlib): n == 0 <=> buffer too small; n < 0 => overflow after -n <= len bytes;
-		// n > 0 => 1 <= n <= 10, n <= len, value decoded from exactly n bytes with n == sz(value).
+		// exact semantics of the standard library functions (T-stdlib), as define-funs uv_n / uv_value
+		// over the first ten bytes of the buffer
 		b := args[0]
-		val := l.freshVal(resTypes[0])
-		n := l.freshVal(resTypes[1])
+		n := App("uv_n", "Int", r.sArr(b), r.sOff(b), r.sLen(b))
+		uval := App("uv_value", "Int", r.sArr(b), r.sOff(b), r.sLen(b))
+		for k := int64(0); k < 10; k++ {
+			e := r.sIndex(b, IntLit(k))
+			l.assume(Implies(Lt(IntLit(k), r.sLen(b)), And(Le(IntLit(0), e), Le(e, IntLit(255)))))
+		}
+		nv := l.tmp("Int")
+		l.assign(nv, "Int", n)
+		vv := l.tmp("Int")
+		if callee.Name() == "Varint" {
+			l.assign(vv, "Int", App("unzigzag", "Int", uval))
+		} else {
+			l.assign(vv, "Int", uval)
+		}
 		sz := "sz_uvarint"
 		if callee.Name() == "Varint" {
 			sz = "sz_varint"
 		}
-		fn := "dec." + callee.Name()
-		l.p.reg.Fun(fn, []string{r.sArr(b).Sort, "Int"}, "Int")
-		l.assume(And(
-			Le(IntLit(-10), n), Le(n, IntLit(10)),
-			Implies(Lt(IntLit(0), n), And(Le(n, r.sLen(b)), Le(App(sz, "Int", val), n), Eq(val, App(fn, "Int", r.sArr(b), r.sOff(b))))),
-			Implies(Lt(n, IntLit(0)), Le(App("-", "Int", n), r.sLen(b))),
-			Implies(Eq(r.sLen(b), IntLit(0)), Eq(n, IntLit(0))),
-			Implies(Eq(n, IntLit(0)), Eq(val, IntLit(0))),
-		))
-		l.note("T-stdlib: encoding/binary.Varint/Uvarint (n==0 iff short buffer, n<0 => -n<=len, n>0 => n<=len && sz(value)<=n<=10)")
-		return []*Term{val, n}
+		// derived facts that help the solver (consequences of the definitions)
+		l.assume(Implies(Lt(IntLit(0), V(nv, "Int")), Le(App(sz, "Int", V(vv, "Int")), V(nv, "Int"))))
+		l.wf(V(vv, "Int"), resTypes[0])
+		l.note("T-stdlib: encoding/binary.Varint/Uvarint modelled exactly (define-funs uv_n, uv_value over the first ten bytes)")
+		return []*Term{V(vv, "Int"), V(nv, "Int")}
 	case "encoding/binary.PutVarint", "encoding/binary.PutUvarint":
 		lv := l.slicePlace(ce.Args[0])
 		if lv == nil {
